@@ -81,6 +81,22 @@ def canon_expr(e: ast.AST) -> str:
 
         def visit_BoolOp(self, n):
             self.generic_visit(n)
+            if isinstance(n.op, ast.And):
+                # under a conjunct `X < 0` (canonical: `X < 0` stays, `0 > X` was mirrored), abs(X) is -X
+                negs = set()
+                for v in n.values:
+                    if isinstance(v, ast.Compare) and len(v.ops) == 1 and isinstance(v.ops[0], ast.Lt) \
+                            and isinstance(v.comparators[0], ast.Constant) and v.comparators[0].value == 0:
+                        negs.add(norm(v.left, 200))
+                if negs:
+                    class A(ast.NodeTransformer):
+                        def visit_Call(s, c):
+                            s.generic_visit(c)
+                            if isinstance(c.func, ast.Name) and c.func.id == "abs" and len(c.args) == 1 and not c.keywords \
+                                    and norm(c.args[0], 200) in negs:
+                                return ast.UnaryOp(op=ast.USub(), operand=c.args[0])
+                            return c
+                    n = ast.BoolOp(op=n.op, values=[A().visit(v) for v in n.values])
             vals = sorted(n.values, key=lambda v: norm(v, 400))
             return ast.BoolOp(op=n.op, values=vals)
 
